@@ -10,5 +10,23 @@ def handle (fn : String) (args : List Json) : String :=
   | "compact" => match args with
     | [a0] => (do let x0 ← Wire.decStr a0; pure (Wire.respondWith Wire.encStr (Gen.de_stnr.compact x0)) : Option String).getD "badargs"
     | _ => "badargs"
+  | "format" => match args with
+    | [a0, a1] => (do let x0 ← Wire.decStr a0; let x1 ← (Wire.decOpt Wire.decStr) a1; pure (Wire.respondWith Wire.encStr (Gen.de_stnr.format x0 x1)) : Option String).getD "badargs"
+    | _ => "badargs"
+  | "guess_regions" => match args with
+    | [a0] => (do let x0 ← Wire.decStr a0; pure (Wire.respondWith (Wire.encList Wire.encStr) (Gen.de_stnr.guess_regions x0)) : Option String).getD "badargs"
+    | _ => "badargs"
+  | "is_valid" => match args with
+    | [a0, a1] => (do let x0 ← Wire.decStr a0; let x1 ← (Wire.decOpt Wire.decStr) a1; pure (Wire.respondWith Wire.encBool (Gen.de_stnr.is_valid x0 x1)) : Option String).getD "badargs"
+    | _ => "badargs"
+  | "to_country_number" => match args with
+    | [a0, a1] => (do let x0 ← Wire.decStr a0; let x1 ← (Wire.decOpt Wire.decStr) a1; pure (Wire.respondWith Wire.encStr (Gen.de_stnr.to_country_number x0 x1)) : Option String).getD "badargs"
+    | _ => "badargs"
+  | "to_regional_number" => match args with
+    | [a0] => (do let x0 ← Wire.decStr a0; pure (Wire.respondWith Wire.encStr (Gen.de_stnr.to_regional_number x0)) : Option String).getD "badargs"
+    | _ => "badargs"
+  | "validate" => match args with
+    | [a0, a1] => (do let x0 ← Wire.decStr a0; let x1 ← (Wire.decOpt Wire.decStr) a1; pure (Wire.respondWith Wire.encStr (Gen.de_stnr.validate x0 x1)) : Option String).getD "badargs"
+    | _ => "badargs"
   | _ => "nofunc"
 end Driver.D_de_stnr
